@@ -10,6 +10,7 @@ M = [['text', 70000, 31], ['rnd', 131073, 32]]
 BIG = ['mix', 600000, 33]
 NEW = [['rnd', 200, 41], ['text', 1000, 42], ['zero', 4096, 43]]
 NEWM = ['text', 150000, 44]
+L = ['rnd', 210, 46]  # loose-only small object of the 'mixed' pre-state
 
 
 def cfg(target=GiB4, hash_type='sha256', prefix=2, level=1):
@@ -35,7 +36,7 @@ PRE = {
     'plain': adds(A + M[:1]) + [pack('no'), CLEAN],
     'zipped': adds(A + M[:1]) + [pack('yes'), CLEAN],
     # some packed+cleaned, some packed and still loose, some loose only
-    'mixed': adds(A) + [pack('no'), CLEAN] + adds(B) + [pack('yes')] + adds(M[:1] + NEW[:1]),
+    'mixed': adds(A) + [pack('no'), CLEAN] + adds(B) + [pack('yes')] + adds(M[:1] + [L]),
 }
 
 
@@ -89,8 +90,8 @@ def variants(tier: str, default_fsync_only: bool = False):  # noqa: C901
             add(f'add_objects_to_pack:z={int(compress)}:{fname}:multipack',
                 {'op': 'add_objects_to_pack', 'cs': batch, 'compress': compress, **flags}, ['mixed', 'plain'], target=500,
                 quick=(compress, fname) in ((True, 'plain'), (False, 'nh1')))
-    add('add_objects_to_pack:no-fsync', {'op': 'add_objects_to_pack', 'cs': batch, 'do_fsync': False}, ['mixed'],
-        quick=False, fsync_default=False)
+    add('add_objects_to_pack:no-fsync', {'op': 'add_objects_to_pack', 'cs': [NEW[0], NEW[1], B[0], A[0]], 'do_fsync': False}, ['mixed', 'empty'],
+        fsync_default=False)
     add('add_streamed_objects_to_pack:lazy', {'op': 'add_streamed_objects_to_pack', 'cs': batch, 'streams': 'lazy',
                                                'no_holes': True, 'read_twice': True}, ['mixed'], quick=False)
     add('add_streamed_object_to_pack:big', {'op': 'add_streamed_object_to_pack', 'c': NEWM, 'compress': True,
@@ -108,7 +109,7 @@ def variants(tier: str, default_fsync_only: bool = False):  # noqa: C901
     # deletion ---------------------------------------------------------------------------------------------------
     add('delete:loose', {'op': 'delete', 'cs': [A[0], A[2]], 'absent': [['rnd', 5, 98]]}, ['loose'])
     add('delete:packed', {'op': 'delete', 'cs': [A[0], A[2]], 'absent': []}, ['plain', 'zipped'])
-    add('delete:both-forms', {'op': 'delete', 'cs': [A[0], B[1], NEW[0]], 'absent': []}, ['mixed'])
+    add('delete:both-forms', {'op': 'delete', 'cs': [A[0], B[1], L], 'absent': []}, ['mixed'])
     # repack -------------------------------------------------------------------------------------------------------
     for mode in ('keep', 'yes', 'no', 'auto'):
         add(f'repack:{mode}', {'op': 'repack', 'mode': mode}, ['mixed', 'zipped'], repack=True, quick=mode in ('keep', 'yes'))
